@@ -5,6 +5,7 @@ classes) + M-SOLVE end to end, with the protocol stand-in at the far end of
  (a) in-process subclasses overriding only _call_solver (bulk),
  (b) the unmodified classes + fake extension modules pycsugar / enigma_csp / cspuz_core,
  (c) the unmodified classes + the real subprocess path (stubs/bin/sugar)."""
+import contextlib
 import os
 import random
 import sys
@@ -127,8 +128,9 @@ def via_solver(ctx, st, ws, backend, bname, build, desc, mode, keyidx):
 def prog_builder(p):
     def build(s):
         vars_ = progs.declare(s, p["decls"])
-        for c in p["constraints"]:
-            s.ensure(progs.build(c, vars_))
+        with (progs.shared() if len(repr(p)) % 2 else contextlib.nullcontext()):
+            for c in p["constraints"]:
+                s.ensure(progs.build(c, vars_))
         return vars_
     return build
 
